@@ -18,6 +18,13 @@ def run(ctx):
         "meta": ch.coin(1, 2, "p-meta"),
         "max_nodes": 6 + ch.draw(20, "p-maxnodes"),
     }
+    large = ch.coin(1, 30, "size-class-large")
+    if large:
+        # size class: a store of up to ~150 nodes and a long history (many deletions, many reused indices, many
+        # links per port)
+        prof["max_nodes"] = 40 + ch.draw(60, "p-maxnodes-large")
+        prof["large"] = True
+        ctx.probe("large_store")
     ctx.profile = prof
     adopt = None
     if ch.coin(1, 4, "adopt-builder-product"):
@@ -37,7 +44,7 @@ def run(ctx):
     sim = GraphSim(ctx, in_range=prof["in_range"], allow_delete=prof["delete"], allow_insert=prof["insert"],
                    use_meta=prof["meta"], max_nodes=prof["max_nodes"], adopt_hugr=adopt)
     cap = 120 if ctx.cfg.get("tier") == "thorough" else 60
-    nsteps = 3 + ch.draw(cap, "nsteps")
+    nsteps = 3 + ch.draw(cap, "nsteps") + (80 + ch.draw(120, "nsteps-large") if large else 0)
     actors = list(range(sim.n_clients)) + [g.name for g in sim.graphs[1:]]
     for g in sim.graphs:
         sim.compare(g, "init")
